@@ -246,6 +246,36 @@ func C19(p *core.Program, r *core.Report) {
 	}
 	sort.Strings(ar)
 	r.Stats["tested_url_values"] = sortedKeys(testedForms)
+
+	// H9: a frame that survives (a rendered tweet inside its placeholder, a frame in a retained
+	// table) shows what its src names only if it has no srcdoc: the attribute allow-list of the
+	// output must not let srcdoc through. The list is found by content (the one fixed table of
+	// package domutil that holds href, src and alt).
+	if dp := p.SSAPkgs[core.ExpandKey(domutilPkg)]; dp != nil {
+		n := 0
+		for _, mem := range dp.Members {
+			g, ok := mem.(*ssa.Global)
+			if !ok {
+				continue
+			}
+			tbl, ok := p.GlobalConst(g)
+			if !ok {
+				continue
+			}
+			have := map[string]bool{}
+			for _, k := range tableKeys(tbl) {
+				have[k] = true
+			}
+			if !(have["href"] && have["src"] && have["alt"]) {
+				continue
+			}
+			n++
+			r.Add("H9", "the attribute allow-list of the output does not let srcdoc through", p.Pos(g.Pos()), !have["srcdoc"], fmt.Sprintf("%d allowed attributes", len(have)))
+		}
+		if n == 0 {
+			r.Undecided("H9", "the attribute allow-list", "no fixed table of package domutil holds href, src and alt")
+		}
+	}
 	r.Add("H3", "allow-list of root domains", "", sameSet(ar, []string{"player.vimeo.com", "twitter.com", "youtube-nocookie.com", "youtube.com"}), fmt.Sprintf("roots tested anywhere in package embed: %v", ar))
 	r.Stats["embed_constructions"] = nEmbeds
 
